@@ -109,6 +109,18 @@ package queue
 //@   before call (*Tagged).removeFile assert replaces-the-entry-of-that-name: has(q.byFile, file.GetName()) && arg1 == q.byFile[file.GetName()]
 //@   modifies everything
 
+// the position of a new file in its group (binary search with these predicates): by name for alpha
+// tags; by modification time for fifo (oldest first) and lifo (newest first) tags, the name deciding
+// only between files of exactly the same time
+//@ func (*Tagged).addFile$1
+//@   on return assert by-name: r0 == (list[i].orig.GetName() > file.orig.GetName())
+//@   modifies nothing
+//@ func (*Tagged).addFile$2
+//@   on return assert same-time-falls-back-to-the-name: list[i].orig.GetTime() == file.orig.GetTime() ==> r0 == (list[i].orig.GetName() > file.orig.GetName())
+//@   on return assert fifo-is-oldest-first: list[i].orig.GetTime() != file.orig.GetTime() && order == sts.OrderFIFO ==> r0 == (list[i].orig.GetTime() > file.orig.GetTime())
+//@   on return assert lifo-is-newest-first: list[i].orig.GetTime() != file.orig.GetTime() && order != sts.OrderFIFO ==> r0 == (list[i].orig.GetTime() < file.orig.GetTime())
+//@   modifies nothing
+
 //@ func (*Tagged).removeFile
 //@   modifies entries(q.headFile), entries(q.byFile)
 
